@@ -64,7 +64,13 @@ def run(rep, tier, replay):
                            data, {"VERIF_SCHED_SEED": rng.randrange(50)}, kind="compress", timeout=180)
             c.level = level
             cases.append(c)
-    runs = sched.run_cases(exe, cases, par=8)
+    # many blocks in flight on many workers at once (encoder state that must not be shared between threads)
+    stress = (rng.randbytes(1 << 20) + bytes(1 << 18)) * 16
+    for i in range(6 if tier == "quick" else 40):
+        c = sched.Case("stress20m|c -1 W=16 run=%d" % i, ["-1", "-n", "16"], stress, {"VERIF_SCHED_SEED": i} if i % 2 else {}, kind="compress", timeout=300)
+        c.level = 1
+        cases.append(c)
+    runs = sched.run_cases(exe, cases, par=6)
     bad = sched.judge(rep, runs, "C02")
     sched.report_runs(rep, "C02", exe, bad, "run")
     nblocks = ntables = 0
@@ -74,8 +80,18 @@ def run(rep, tier, replay):
             continue
         rep.add("evaluations")
         z = t.run.out
-        ins = bzfmt.inspect(z)
         remarks = []
+        if t.case.label.startswith("stress"):
+            try:
+                if bz2.decompress(z) != t.case.data:
+                    remarks.append("libbz2 decodes it to different bytes")
+            except Exception as e:
+                remarks.append("libbz2 rejects it: %s" % e)
+            seen.add(vlib.digest(z))
+            if remarks:
+                rep.violation("%s: %s" % (t.label, "; ".join(remarks)), sched.save_stimulus("C02", "s%d" % len(rep.violations), t, dict(cls="not-well-formed", remarks=remarks)))
+            continue
+        ins = bzfmt.inspect(z)
         if not ins.valid:
             remarks.append("not a valid bzip2 file: %s" % ins.reason)
         else:
